@@ -2,7 +2,9 @@
 Each entry names a function (and its closures), the kind of fact, and the normalised comparison / callee:
   reject   a comparison whose edge leads to an error return (reconstructed as in R-LIMIT);
   compare  a comparison that decides a branch (either outcome) - used for `skip when empty` / `mirror at the edge` guards;
-  calls    a call to the named function from the family (a conversion or a query the repair depends on).
+  calls    a call to the named function from the family (a conversion or a query the repair depends on);
+  guarded  `callee <= cmp:<text>` / `callee <= call:<fn>`: every call of `callee` in the family is dominated by a branch on that comparison
+           (either polarity) / on the result of a call to <fn>.
 These are necessary conditions only: the rule says that the guard exists and is wired to the same values, not that it is sufficient."""
 from .. import validation
 from ..facts import callee
@@ -19,7 +21,7 @@ TABLE = [
      "blending a 1-channel (grey Modular) frame with a 3-channel (VarDCT) frame"),
     (("C01", "C05"), "jxl_render::blend::patch", "reject", "ret:color_channels != color_channels", "D25",
      "patch source with a different number of colour channels"),
-    (("C01", "C05"), "jxl_render::blend::blend", "calls", "region::Region::is_empty", "D26",
+    (("C01", "C05"), "jxl_render::blend::blend", "guarded", "blend::blend_single <= call:region::Region::is_empty", "D26",
      "a frame outside the rendered region has empty buffers: nothing is blended, no subgrid is taken"),
     (("C01", "C05"), "jxl_render::RenderContext::load_frame_header", "reject", "ref_header.width < size.width", "D27",
      "a cropped reference-only frame is not a valid blending background"),
@@ -38,7 +40,7 @@ TABLE = [
      "an integer (Modular, non-XYB) LF frame is converted to float before it is used as LF coefficients"),
     (("C01",), "jxl_render::vardct::render_vardct", "calls", "image::ImageWithRegion::clone_gray", "D32",
      "a single-channel LF frame is expanded to three channels"),
-    (("C01",), "jxl_render::RenderContext::postprocess_keyframe", "compare", "output_channels < 3", "D34",
+    (("C01",), "jxl_render::RenderContext::postprocess_keyframe", "guarded", "ImageWithRegion::remove_color_channels <= cmp:output_channels < 3", "D34",
      "a no-op transform with four outputs (CMYK) removes no colour channel from a three-channel image"),
     (("C01",), "jxl_render::RenderContextBuilder::build", "calls", "ExtraChannelInfo::is_black", "D35",
      "a CMYK profile needs a black extra channel"),
@@ -74,6 +76,61 @@ def run(ctx, pid):
             ctx.anchor_missing(rid, prefix)
             continue
         found = False
+        if kind == "guarded":
+            target, _, guard = text.partition(" <= ")
+            sites = 0
+            unguarded = 0
+            for f in fam:
+                defs = None
+                for b, t in f.calls():
+                    c = callee(t)
+                    if not c or not (c["fn"].endswith(target) or c.get("res", "").endswith(target)):
+                        continue
+                    sites += 1
+                    if defs is None:
+                        from ..mirutil import Defs
+                        from ..facts import op_local
+                        defs = Defs(f)
+                        cmps = {}
+                        for cc in validation.checks(f, errs=set(range(len(f.blocks)))):
+                            cmps.setdefault(cc["bb"], set()).add(validation.norm(cc["subject"], cc["op"], cc["other"]))
+                    ok = False
+                    for sb in range(len(f.blocks)):
+                        st_ = f.term(sb)
+                        if st_[0] != "switch" or sb == b or not f.dominates(sb, b):
+                            continue
+                        if guard.startswith("cmp:"):
+                            gt = guard[4:]
+                            neg = {"<": ">=", ">=": "<", ">": "<=", "<=": ">", "==": "!=", "!=": "=="}
+                            parts = gt.rsplit(" ", 2)
+                            forms = {gt}
+                            if len(parts) == 3:
+                                forms.add(validation.norm(parts[0], neg[parts[1]], int(parts[2]) if parts[2].lstrip("-").isdigit() else parts[2]))
+                            if cmps.get(sb, set()) & forms:
+                                ok = True
+                        else:
+                            l = op_local(st_[1])
+                            for _ in range(4):
+                                d = defs.single(l) if l is not None else None
+                                if d and d[2] == "assign" and d[3][2][0] in ("use", "un"):
+                                    l = op_local(d[3][2][1] if d[3][2][0] == "use" else d[3][2][2])
+                                    continue
+                                break
+                            d = defs.single(l) if l is not None else None
+                            if d and d[2] == "call" and callee(d[3]) and callee(d[3])["fn"].endswith(guard[5:]):
+                                ok = True
+                    if not ok:
+                        unguarded += 1
+                if sites:
+                    ctx.seen(f)
+            if sites and not unguarded:
+                ctx.ok(rid, key, "%s (%s); %d call site(s) guarded" % (why, defect, sites), nontrivial=True, fn=fam[0])
+            elif not sites:
+                ctx.bad(rid, key + "|missing", "the call `%s` the %s guard protects is no longer found in %s" % (target, defect, prefix), fn=fam[0])
+            else:
+                ctx.bad(rid, key + "|missing", "the guard that repaired %s is gone from %s: a call of %s is not dominated by a branch on `%s`: %s"
+                        % (defect, prefix, target, guard, why), fn=fam[0])
+            continue
         for f in fam:
             if (f.path, kind) not in cache:
                 if kind == "reject":
